@@ -8,9 +8,9 @@ Open Scope Z_scope.
 Module M_C02_multistage_step.
 Import Inst.
 Theorem C02_multistage_step :
-  forall (tr : NAdvance.traj) (N S : Z) (label : nat -> MSPot.storage) (s : MSPot.st) (x : MSPot.xst),
+  forall (tr : NAdvance.traj) (N S : Z) (label : nat -> Actions.storage) (s : MSPot.st) (x : MSPot.xst),
          1 <= N ->
-         (forall d : nat, label d = MSPot.RAM \/ label d = MSPot.DISK) ->
+         (forall d : nat, label d = Actions.RAM \/ label d = Actions.DISK) ->
          MSPot.Inv (TC tr) N S label s x ->
          let (s', o) := MSPot.resume (advC tr) N S label s in
          match o with
@@ -41,8 +41,8 @@ Theorem C02_mixed_step :
           fst (plan m k) = KIcs ->
           C m k = snd (plan m k) + C (m - snd (plan m k)) (k - 1) + C (snd (plan m k)) k) ->
          (forall m k : Z, 2 <= m -> 1 <= k -> fst (plan m k) = KAdj -> C m k = 1 + C (m - 1) (k - 1)) ->
-         forall (N S_ : Z) (stg : storage),
-         stg = RAM \/ stg = DISK ->
+         forall (N S_ : Z) (stg : Actions.storage),
+         stg = Actions.RAM \/ stg = Actions.DISK ->
          forall (s : st) (x : xst) (f : nat),
          Inv plan C N S_ s x -> Good plan C N S_ stg x (resume plan N S_ stg (S (S (S f))) s) (pcv s = PDone).
 Proof. exact (@MixInv.step_ok). Qed.
@@ -59,11 +59,11 @@ Theorem C02_twolevel_step :
          forall T : Z -> Z -> Z,
          (forall k : Z, T 1 k = 1) ->
          (forall m k : Z, 2 <= m -> 1 <= k -> T m k = adv m k + T (m - adv m k) (k - 1) + T (adv m k) k) ->
-         forall (N P bs : Z) (bst : storage),
+         forall (N P bs : Z) (bst : Actions.storage),
          1 <= N ->
          1 <= P ->
          0 <= bs ->
-         bst = RAM \/ bst = DISK ->
+         bst = Actions.RAM \/ bst = Actions.DISK ->
          forall (d0 : Z) (s : st) (x : xst) (f : nat),
          Inv T N P bs d0 s x -> Good T N P bs bst x (resume adv N P bs bst (S (S (S (S f)))) s).
 Proof. exact (@TLInv.step_ok). Qed.
@@ -80,7 +80,7 @@ Theorem C02_revolve_stream :
          0 <= cm ->
          (2 <= N -> 1 <= cm) ->
          revolve fuel opt0 uf (N - 1) cm = GOk ops ->
-         exists (acts : list RevBlk.action) (c' : RevBlk.cst) (x' : RevBlk.xst) (lastop : RevBlk.op),
+         exists (acts : list Actions.action) (c' : RevBlk.cst) (x' : RevBlk.xst) (lastop : RevBlk.op),
            RevBlk.conv N 0 prev init_c ops = (acts, inl (c', Some lastop, length ops)) /\
            RevBlk.execs N cm init_x acts = Some x' /\
            RevBlk.r_ c' = N /\
